@@ -168,6 +168,37 @@ func (ev *Eval) eval(e ast.Expr) *Val {
 		return ev.sliceExpr(x)
 	case *ast.CallExpr:
 		return ev.callExpr(x)
+	case *ast.CompositeLit:
+		// struct literal T{F: v, ...}
+		if t := ev.resolveType(x.Type); t != nil {
+			if st, ok := t.Underlying().(*types.Struct); ok {
+				v := zeroVal(t)
+				for i, el := range x.Elts {
+					idx := i
+					var ve ast.Expr = el
+					if kv, ok := el.(*ast.KeyValueExpr); ok {
+						ve = kv.Value
+						idx = -1
+						if id, ok := kv.Key.(*ast.Ident); ok {
+							for k := 0; k < st.NumFields(); k++ {
+								if st.Field(k).Name() == id.Name {
+									idx = k
+								}
+							}
+						}
+					}
+					if idx < 0 || idx >= st.NumFields() {
+						ev.fail("bad field in composite literal %s", exprString(x))
+						return v
+					}
+					fv := ev.eval(ve)
+					c := *fv
+					c.Ty = st.Field(idx).Type()
+					v.Fs[idx] = &c
+				}
+				return v
+			}
+		}
 	case *ast.TypeAssertExpr:
 		v := ev.eval(x.X)
 		tn := ev.typeName(x.Type)
